@@ -156,6 +156,10 @@ def canon_term(t):
     from pyab_experiment.data_structures.syntax_tree import Identifier
     if isinstance(t, Identifier):
         return {"id": t.name}
+    if isinstance(t, tuple):
+        return {"t": [canon_term(x) for x in t]}
+    if isinstance(t, list):
+        return {"l": [canon_term(x) for x in t]}
     return enc_val(t)
 
 
